@@ -130,7 +130,7 @@ void GridWavelet::getQuadratureWeights(double weights[]) const{
     for(int i=0; i<num_points; i++){
         weights[i] = evalIntegral(work.getIndex(i));
     }
-    if (inter_matrix.getNumRows() != num_points) buildInterpolationMatrix();
+    checkInterpolationMatrix(num_points);
     inter_matrix.invertTransposed(acceleration, weights);
 }
 void GridWavelet::getInterpolationWeights(const double x[], double weights[]) const{
@@ -140,7 +140,7 @@ void GridWavelet::getInterpolationWeights(const double x[], double weights[]) co
     for(int i=0; i<num_points; i++){
         weights[i] = evalBasis(work.getIndex(i), x);
     }
-    if (inter_matrix.getNumRows() != num_points) buildInterpolationMatrix();
+    checkInterpolationMatrix(num_points);
     inter_matrix.invertTransposed(acceleration, weights);
 }
 void GridWavelet::getDifferentiationWeights(const double x[], double weights[]) const {
@@ -150,7 +150,7 @@ void GridWavelet::getDifferentiationWeights(const double x[], double weights[]) 
     for (int i=0; i<num_points; i++) {
         evalDiffBasis(work.getIndex(i), x, &(weights[i * num_dimensions]));
     }
-    if (inter_matrix.getNumRows() != num_points) buildInterpolationMatrix();
+    checkInterpolationMatrix(num_points);
     // Solve the linear wavelet system for each direction/partial derivative and re-index.
     std::vector<double> local_weights(num_points);
     for (int d=0; d<num_dimensions; d++) {
@@ -386,6 +386,13 @@ void GridWavelet::evalDiffBasis(const int p[], const double x[], double jacobian
     }
 }
 
+void GridWavelet::checkInterpolationMatrix(int num_points) const{
+    // several const methods can get here at the same time (e.g., the first calls to getInterpolationWeights() from different threads)
+    // only one of them can build the matrix, the rest must wait and then reuse it
+    std::lock_guard<std::mutex> lock(inter_matrix_lock);
+    if (inter_matrix.getNumRows() != num_points) buildInterpolationMatrix();
+}
+
 void GridWavelet::buildInterpolationMatrix() const{
     // updated code, using better parallelism
     // Wavelets don't have a nice rule of support to use monkeys and graphs (or I cannot find the support rule)
@@ -449,7 +456,7 @@ void GridWavelet::recomputeCoefficients(){
     int num_points = points.getNumIndexes();
     coefficients = Data2D<double>(num_outputs, num_points, std::vector<double>(values.begin(), values.end()));
 
-    if (inter_matrix.getNumRows() != num_points) buildInterpolationMatrix();
+    checkInterpolationMatrix(num_points);
 
     inter_matrix.invert(acceleration, num_outputs, coefficients.data());
 
